@@ -138,3 +138,39 @@ def env():
     import datetime
     import collections
     return {'ppv': ppv, 'types': types, 'datetime': datetime, 'collections': collections}
+
+
+# ---------------------------------------------------------------------------
+# C17: arbitrary pretty_call / pretty_call_alt invocations
+
+class CallSpec:
+    """printer calls pretty_call / pretty_call_alt with exactly these arguments"""
+
+    def __init__(self, fn, args, kwargs, mode):
+        self.fn = fn          # callable or str
+        self.args = args      # tuple
+        self.kwargs = kwargs  # list of (name, value)
+        self.mode = mode      # 'call' | 'alt-list' | 'alt-odict' | 'alt-dict'
+
+
+CALLABLES = {
+    'sorted': sorted, 'dict': dict, 'len': len, 'free_function': free_function, 'Box': Box, 'Inner': Outer.Inner,
+    'str:custom_name': 'custom_name', 'str:pkg.mod.fn': 'pkg.mod.fn',
+}
+CALLABLE_NAMES = {
+    'sorted': 'sorted', 'dict': 'dict', 'len': 'len', 'free_function': 'ppv.vtypes.free_function',
+    'Box': 'ppv.vtypes.Box', 'Inner': 'ppv.vtypes.Outer.Inner', 'str:custom_name': 'custom_name',
+    'str:pkg.mod.fn': 'pkg.mod.fn',
+}
+
+
+@register_pretty(CallSpec)
+def _pretty_callspec(value, ctx):
+    import collections
+    if value.mode == 'call':
+        return pretty_call(ctx, value.fn, *value.args, **dict(value.kwargs))
+    if value.mode == 'alt-list':
+        return pretty_call_alt(ctx, value.fn, args=value.args, kwargs=list(value.kwargs))
+    if value.mode == 'alt-odict':
+        return pretty_call_alt(ctx, value.fn, args=value.args, kwargs=collections.OrderedDict(value.kwargs))
+    return pretty_call_alt(ctx, value.fn, args=value.args, kwargs=dict(value.kwargs))
